@@ -101,6 +101,25 @@ fn kx_chain_copy_to_bytes() {
     }
 }
 
+// @ob props=C09,C12 tier=quick kind=Kbounded bound="a: 1 byte, b: a chain of 1 + 1 bytes (multi-chunk tail), n in 2..=3" fns=Chain::copy_to_bytes
+#[kani::proof]
+#[kani::unwind(8)]
+fn kx_chain_copy_to_bytes_multichunk_tail() {
+    // the straddling branch with a second half that is itself multi-chunk: the request reaches past
+    // b's first chunk (seed C12-5 copied from b.chunk() only).  Twin of V unit buf_copy.
+    let d: [u8; 3] = kani::any();
+    let mut n = 2;
+    while n <= 3 {
+        let mut c = Chain::new(&d[..1], Chain::new(&d[1..2], &d[2..3]));
+        let r = c.copy_to_bytes(n);
+        assert!(r.len() == n && c.remaining() == 3 - n);
+        let i: usize = kani::any();
+        if i < n { assert!(r[i] == d[i]); }
+        core::mem::forget(r);
+        n += 1;
+    }
+}
+
 fn take_case(a: &[u8; 2], b: &[u8; 2], la: usize, lb: usize, n: usize) {
     let limit: usize = kani::any();
     kani::assume(limit >= n);
